@@ -59,7 +59,8 @@ def _resource(r, ind=""):
     if r.get("rate") is not None:
         out.append(f"{i2}rate {r['rate']}")
     if r.get("tz"):
-        out.append(f'{i2}timezone "{r["tz"]}"')
+        q = r.get("tzq", '"')   # STRING may be written with single or double quotes
+        out.append(f'{i2}timezone {q}{r["tz"]}{q}')
     if r.get("shift"):
         out.append(f"{i2}workinghours {r['shift']}")
     out += _hours(r.get("hours") or [], i2)
@@ -157,12 +158,20 @@ def render(spec):
     for typ, a, b in spec.get("gleaves") or []:
         out.append(f'leaves {typ} "L" {a}' + (f" - {b}" if b else ""))
     out += list(spec.get("globals") or [])
-    for sh in spec.get("shifts") or []:
-        out.append(f'shift {sh["id"]} "{sh["id"]}" {{')
-        out += _hours(sh["hours"], "  ")
-        out.append("}")
+    def _shifts():
+        o = []
+        for sh in spec.get("shifts") or []:
+            o.append(f'shift {sh["id"]} "{sh["id"]}" {{')
+            o.extend(_hours(sh["hours"], "  "))
+            o.append("}")
+        return o
+
+    if not spec.get("shifts_after"):
+        out += _shifts()
     for r in spec.get("resources") or []:
         out += _resource(r)
+    if spec.get("shifts_after"):   # declared only after the resources that refer to them
+        out += _shifts()
     for t in spec.get("tasks") or []:
         out += _task(t)
     out += list(spec.get("reports") or [])
